@@ -323,8 +323,32 @@ def machines(tier):
     return ms
 
 
+def long_chain_check():
+    """one long history outside the small domains: n elements joined root to root in decreasing order build a parent
+    chain as long as the element count (the smaller root always wins); every lookup must still return the minimum"""
+    from whatshap.graph import ComponentFinder
+
+    viols = []
+    for n in (1500, 5000):
+        vals = list(range(1000000, 1000000 + 25 * n, 25))
+        cf = ComponentFinder(vals)
+        for i in range(n - 2, -1, -1):
+            cf.merge(vals[i], vals[i + 1])
+        for v in (vals[-1], vals[n // 2], vals[0]):
+            try:
+                got = cf.find(v)
+            except Exception as e:  # noqa
+                viols.append({"clause": "cf:long-chain", "signature": "cf:long-chain", "detail": f"find({v}) after {n - 1} merges in decreasing order raised {type(e).__name__}", "instance": {"history": ["long-chain", n]}})
+                break
+            if got != vals[0]:
+                viols.append({"clause": "cf:long-chain", "signature": "cf:long-chain", "detail": f"find({v}) = {got} after {n - 1} merges in decreasing order, minimum is {vals[0]}", "instance": {"history": ["long-chain", n]}})
+    return viols
+
+
 def run(rep, tier, seed, only=None):
     states = transitions = ndiag = 0
+    if not only:
+        rep.add_violations(long_chain_check())
     per_bounded = []
     samples = []
     per = {}
